@@ -3,6 +3,8 @@ CONSTANTS
   MaxListeners = 3
   NB = 5
   MaxOps = 3
+  EmitEvery = 1
+  LieMode = FALSE
   SyncListeners = 0
 CONSTRAINT Bound
 VIEW View
